@@ -45,6 +45,10 @@ const ITEMS: &[(&str, usize)] = &[
     ("let t = \"x\ny\";", 2),
     ("@ false { }", 1),
     ("let u = [1,\n  2];", 2),
+    // a newline inside a char / byte literal, and a CRLF line ending
+    ("let nc = '\n';", 2),
+    ("let nb = b'\n';", 2),
+    ("let cr = 3;\r", 1),
     // branches ending in expression statements (the compiler rewrites the instruction stream there)
     ("if zero == 0 { 1 } else { 2 };", 1),
     ("match zero { 0 => 1, 1 => { 2 } _ => 3 };", 1),
